@@ -482,11 +482,12 @@ def render_main(st):
         elif mode == "both-sealed-extent":
             lines += ["@sealed", "@extent %d" % (mx + 64)]
         elif mode == "both-extent-sealed":
-            lines += ["@extent %d" % (mx + 64), "@sealed"]
+            # the first directive also with the smallest legal extent (0 bits for a section without fields)
+            lines += ["@extent %d" % (mx + st.rng.choice([0, 0, 64])), "@sealed"]
         elif mode == "sealed-twice":
             lines += ["@sealed", "@sealed"]
         elif mode == "extent-twice":
-            lines += ["@extent %d" % (mx + 64)] * 2
+            lines += ["@extent %d" % (mx + st.rng.choice([0, 0, 64])), "@extent %d" % (mx + st.rng.choice([0, 64]))]
         elif mode == "extent-before-constant":
             lines += ["@extent %d" % (mx + 64), "uint8 LATE_CONSTANT = 1"]
         elif mode == "extent-before-padding":
